@@ -184,8 +184,10 @@ func multisigMonitor(wallets []*msWallet) chainsim.Monitor {
 		registered := mw != nil && leafByKey(s.Pre.Leaves, multisigsc.Address+vote.Transfer.ClientID) != nil
 		key := vote.Transfer.ClientID + "/" + vote.ProposalID
 		inst := h[key]
+		expiredInst := false
 		if inst != nil && now >= inst.Created+multisigsc.ExpirationTime {
 			inst = nil // expired: a later vote starts a new proposal
+			expiredInst = true
 			s.Tag("vote-after-expiry")
 		}
 		// is this a countable vote?
@@ -214,6 +216,7 @@ func multisigMonitor(wallets []*msWallet) chainsim.Monitor {
 			}
 		}
 		expectExec := false
+		mustAccept, kth := false, 0
 		hBefore := h
 		if why == "" && s.Err == nil {
 			h = h.clone()
@@ -229,8 +232,15 @@ func multisigMonitor(wallets []*msWallet) chainsim.Monitor {
 			case inst.Voters[signer.ID]:
 				why = "repeated-vote"
 			default:
+				// a fully valid vote: registered signer's first vote, compatible, validly signed (verified above),
+				// proposal neither expired nor executed. It is CAST whether or not the contract accepts it.
 				inst.Voters[signer.ID] = true
-				if len(inst.Voters) == mw.T {
+				kth = len(inst.Voters)
+				// the contract must accept it, unless the signer keys are not shares of the wallet key (such a wallet
+				// can never produce a valid wallet signature) or the vote revives an expired proposal id (reading:
+				// the contract may refuse that until the expired proposal has been garbage-collected)
+				mustAccept = mw.Shares && !expiredInst
+				if kth >= mw.T {
 					expectExec = true
 					inst.Executed = true
 					why = "threshold-reached"
@@ -242,7 +252,12 @@ func multisigMonitor(wallets []*msWallet) chainsim.Monitor {
 		class := why + ":" + outcomeOf(s)
 		s.Tag("vote:" + class)
 		if s.Err == nil && s.Txn.Status != transaction.TxnSuccess {
-			h = hBefore // a failed call is reverted: the vote is not recorded
+			if mustAccept {
+				v(fmt.Sprintf("C21:vote:valid-vote-rejected:vote-%d-of-%d", kth, mw.T), fmt.Sprintf("vote %d of the %d required on proposal %q of wallet %.8s is by a registered signer, its first, compatible, validly signed and before expiry, but the contract refuses it: %.160s", kth, mw.T, vote.ProposalID, vote.Transfer.ClientID, s.Txn.TransactionOutput))
+				// the vote stays cast in the reference (h keeps it)
+			} else {
+				h = hBefore // a failed call is reverted: the vote is not recorded
+			}
 		}
 		if s.Err != nil {
 			if len(s.Diff) > 0 {
@@ -266,7 +281,10 @@ func multisigMonitor(wallets []*msWallet) chainsim.Monitor {
 			// signer keys that are not shares of the wallet key can never produce a valid wallet signature
 			s.Tag("threshold-reached-but-not-executed:signers-not-shares-of-wallet-key")
 		case len(sts) == 0 && expectExec:
-			v("C21:vote:transfer-not-executed-at-threshold", fmt.Sprintf("the %d-th distinct valid vote did not execute the transfer (status %d, output %.100s)", mw.T, s.Txn.Status, s.Txn.TransactionOutput))
+			v("C21:vote:transfer-not-executed-at-threshold", fmt.Sprintf("%d distinct valid votes have been cast (%d required) and the transfer was not executed (status %d, output %.100s)", kth, mw.T, s.Txn.Status, s.Txn.TransactionOutput))
+		}
+		if expectExec && len(sts) == 0 && inst != nil && h[key] == inst {
+			inst.Executed = false // nothing was executed: the next valid vote must execute it
 		}
 		for _, st := range sts {
 			if st.Transfer != vote.Transfer || (inst != nil && st.Transfer != inst.T) {
